@@ -13,6 +13,7 @@ from .core import E, Engine, PathAbort, Unsupported, Budget
 from . import sxbuiltins, env
 
 CUR = None  # the active Sched (one per process)
+_TL = _th.local()  # .sim = the SimThread this OS thread embodies
 
 
 class Kill(BaseException):
@@ -35,6 +36,7 @@ class SimThread:
         return self.state == "ready" and (self.waitfor is None or self.waitfor())
 
     def _run(self):
+        _TL.sim = self
         self.sem.acquire()
         if self.s.dead:
             self.state = "done"
@@ -119,17 +121,28 @@ class Sched:
         cands = self.runnable()
         if not cands and self._wake_timed():
             cands = self.runnable()
+        forced = False
+        if me is not None and label in ("select", "poll"):
+            # fairness: a thread that polls again and again without blocking (busy-wait on a try-lock) must let
+            # the others run; this switch is not a pre-emption
+            me.spins = getattr(me, "spins", 0) + 1
+            if me.spins > 2 and len(cands) > 1 and me in cands:
+                cands.remove(me)
+                forced = True
         if not cands:
             nxt = None
         else:
-            if me is not None and me in cands:
+            if not forced and me is not None and me in cands:
                 cands.remove(me)
                 cands.insert(0, me)
                 if self.preempt >= self.bound:
                     cands = [me]
             nxt = self._choose(cands)
-            if me is not None and me in cands and nxt is not me:
+            if not forced and me is not None and me in cands and nxt is not me:
                 self.preempt += 1
+            if nxt is not me:
+                for t in self.threads:
+                    t.spins = 0
         if nxt is me and me is not None:
             return
         self.cur = nxt
@@ -180,11 +193,21 @@ class Sched:
 
 
 def me():
+    _check_zombie()
     s = CUR
     return s.cur if s is not None else None
 
 
+def _check_zombie():
+    """an OS thread of a scheduler that was killed may still be unwinding through `except:` handlers of the
+    code under test: it must never run freely - every scheduling point kills it again"""
+    sim = getattr(_TL, "sim", None)
+    if sim is not None and (sim.s.dead or sim.s is not CUR):
+        raise Kill()
+
+
 def yield_point(label=None):
+    _check_zombie()
     s = CUR
     if s is None or s.cur is None:
         return
@@ -193,6 +216,7 @@ def yield_point(label=None):
 
 def block_until(cond, label=None, timeout=None):
     """current modelled thread waits until cond() holds; returns False if a timed wait expired"""
+    _check_zombie()
     s = CUR
     t = s.cur
     if t is None:
@@ -363,8 +387,18 @@ class ThreadingShim:
         return id(me())
 
 
-def install(s):
+YIELD_FUNCS = None  # None = every instrumented statement; else a set of "module.Class.method" prefixes
+
+
+def _line_hook(mod, func, lineno):
+    if YIELD_FUNCS is not None and (mod + "." + func) not in YIELD_FUNCS:
+        return
+    yield_point((mod, func, lineno))
+
+
+def install(s, yield_funcs=None):
     """make s the active scheduler and route statement hooks to it"""
-    global CUR
+    global CUR, YIELD_FUNCS
     CUR = s
-    sxbuiltins.set_yield_hook((lambda ln: yield_point(("line", ln))) if s is not None else None)
+    YIELD_FUNCS = yield_funcs
+    sxbuiltins.set_yield_hook(_line_hook if s is not None else None)
